@@ -309,6 +309,19 @@ func runFilters(w io.Writer, stats map[string]int) {
 					{MatchExpressions: []v1.NodeSelectorRequirement{exprs[i]}}, {MatchExpressions: []v1.NodeSelectorRequirement{exprs[j]}}}}}})
 		}
 	}
+	// ... and every expression on the key next to a term without expressions (empty, or match fields only), in both orders
+	for i := range exprs {
+		if exprs[i].Key != key {
+			continue
+		}
+		for _, blank := range []v1.NodeSelectorTerm{{}, {MatchFields: []v1.NodeSelectorRequirement{{Key: "metadata.name", Operator: v1.NodeSelectorOpIn, Values: []string{"x"}}}}} {
+			one := v1.NodeSelectorTerm{MatchExpressions: []v1.NodeSelectorRequirement{exprs[i]}}
+			pairAffs = append(pairAffs,
+				&v1.Affinity{NodeAffinity: &v1.NodeAffinity{RequiredDuringSchedulingIgnoredDuringExecution: &v1.NodeSelector{NodeSelectorTerms: []v1.NodeSelectorTerm{one, blank}}}},
+				&v1.Affinity{NodeAffinity: &v1.NodeAffinity{RequiredDuringSchedulingIgnoredDuringExecution: &v1.NodeSelector{NodeSelectorTerms: []v1.NodeSelectorTerm{blank, one}}}},
+				&v1.Affinity{NodeAffinity: &v1.NodeAffinity{RequiredDuringSchedulingIgnoredDuringExecution: &v1.NodeSelector{NodeSelectorTerms: []v1.NodeSelectorTerm{blank, one, blank}}}})
+		}
+	}
 	affFilter := controller.NewPodAffinityFilterFunc(key, val)
 	defFilter := controller.NewPodDefaultFilterFunc()
 	for _, sel := range selectors {
